@@ -1,5 +1,37 @@
-(* C07 -- placeholder while the proofs are being written *)
-From CppcmsV Require Import Base.Tac C07.Defs.
-Theorem placeholder : init 0 = init 0.
-Proof. reflexivity. Qed.
-Print Assumptions placeholder.
+(* C07 -- the cache never returns invalidated, expired or superseded data.
+   Only property theorems here, each closed by `exact <lemma>`; the proofs are in ProofsInv.v (mirror
+   consistency, refinement of the line-by-line model Defs.v to the abstract LRU cache of Spec.v). *)
+From CppcmsV Require Import Base.Tac C07.Defs C07.Spec C07.Util C07.ProofsInv.
+Local Open Scope N_scope.
+
+(* 1. Mirror consistency (Inv, Spec.v): primary, triggers, timeout and lru describe the same entry set,
+      triggers[t] lists exactly the keys whose entry carries t, size = |primary|, triggers_count = sum of the
+      trigger lists, timeout is the deadline-sorted image of primary, no duplicates, no loop ran out of fuel.
+      It holds initially, is preserved by every operation under every clock value, limit and allocator
+      behaviour, hence holds after every finite operation sequence. *)
+Theorem inv_init : forall lim, Inv (init lim).
+Proof. exact init_inv. Qed.
+Print Assumptions inv_init.
+Theorem inv_step : forall now o s, Inv s -> Inv (snd (fst (step now o s))).
+Proof. intros now o s I. exact (proj1 (step_ref now o s I)). Qed.
+Print Assumptions inv_step.
+Theorem inv_run : forall ops now lim, Inv (snd (fst (run now ops (init lim)))).
+Proof. intros ops now lim. exact (proj1 (run_ref ops now (init lim) (init_inv lim))). Qed.
+Print Assumptions inv_run.
+Theorem inv_reachable : forall lim now s, reachable lim now s -> Inv s /\ limit s = lim.
+Proof. intros lim now s H. split; [exact (reachable_inv lim now s H)|exact (reachable_limit lim now s H)]. Qed.
+Print Assumptions inv_reachable.
+
+(* 2. Every answer (fetch result and stats after every operation) of the four-index model equals the answer of the
+      abstract LRU cache (an entry list + a recency list, Spec.v), for all operation sequences, clock schedules,
+      limits and allocator faults. *)
+Theorem model_refines_abstract_cache : forall ops now lim,
+  (fst (fst (run now ops (init lim))), abs (snd (fst (run now ops (init lim)))), snd (run now ops (init lim)))
+  = a_run now ops (a_init lim).
+Proof. intros ops now lim. exact (proj2 (run_ref ops now (init lim) (init_inv lim))). Qed.
+Print Assumptions model_refines_abstract_cache.
+
+Example inv_nonvacuous :
+  let ops := [Store [97] [1] [[120]] 5 None FNone []; Store [98] [2] [[97]] 5 None FNone []; Fetch [98]; Rise [97]; Fetch [98]] in
+  map fst (snd (run 0 ops (init 0))) = [ONone; ONone; OHit [2] [[98]; [97]] 5 1; ONone; OMiss].
+Proof. vm_compute. reflexivity. Qed.
